@@ -358,12 +358,12 @@ func hist(depth int, kinds string) {
 
 // H01Kept: one symbolic operation (with at most one fault) on a history whose
 // newest revision was uninstalled with --keep-history, with and without older
-// revisions underneath: uninstall must purge every revision, install / install
+// revisions underneath, or with the older revisions pruned away (a gap in the numbering): uninstall must purge every revision, install / install
 // --replace / upgrade / rollback keep the ledger well-formed.
 func H01Kept() {
 	w := newWorld(newFaultPlan(vBound("faults", 1), 0, "both"))
 	w.f.budget = 0
-	prepareHistory(w, []int{3, 5}[ndChoice("history", 2)])
+	prepareHistory(w, []int{3, 5, 6}[ndChoice("history", 3)])
 	w.f.budget = vBound("faults", 1)
 	stepOp(w, vBound("depth", 2)-1)
 }
